@@ -1814,7 +1814,7 @@ class DiameterRequest(DiameterMessage):
                                      end_to_end=end_to_end)
 
         DiameterMessage.__init__(self, _header, avps)
-        DiameterMessage.set_flag_by_app_id(self, application_id)        
+        DiameterMessage.set_flag_by_app_id(self, _header.application_id)
 
 
     def __set_hop_by_hop_identifier(self) -> None:
@@ -1882,7 +1882,7 @@ class DiameterAnswer(DiameterMessage):
                                      application_id=application_id)
 
         DiameterMessage.__init__(self, _header, avps)
-        DiameterMessage.set_flag_by_app_id(self, application_id)
+        DiameterMessage.set_flag_by_app_id(self, _header.application_id)
 
 
     @staticmethod
